@@ -10,9 +10,13 @@ import (
 func (g *gen) typeUse() {
 	g.unit("typeuse", g.inTest(), func() string {
 		var t *Ty
-		if g.chance(75, "usenamed") {
+		switch {
+		case g.chance(35, "userecursive"):
+			// self-referential types are what cycle guards are for: they get extra uses
+			t = g.namedType(func(t *Ty) bool { return (t.Rec || t.EmbPtr) && !t.Generic }, 0, 2, 3, 10)
+		case g.chance(75, "usenamed"):
 			t = g.namedType(nil)
-		} else {
+		default:
 			t = g.anyType(2)
 		}
 		save := g.sc
@@ -26,7 +30,11 @@ func (g *gen) typeUse() {
 		add := func(s string) { lines = append(lines, s) }
 		n := g.intn(2, 8, "nuses")
 		for i := 0; i < n; i++ {
-			switch g.intn(0, 23, "useform") {
+			form := g.intn(0, 23, "useform")
+			if (t.kind() == KStruct || t.Rec) && g.chance(25, "reflectfirst") {
+				form = 22
+			}
+			switch form {
 			case 0:
 				add("_ = " + fn + "(" + g.arg(t, 2) + ")")
 				g.feat("use_one_arg_call")
